@@ -466,7 +466,7 @@ fn degenerate(em: &mut Emitter) {
                                 if body { "check2_to" } else { "check2_default" }),
                             _ => ("run_custom2 ef ef".to_string(), "check2_custom"),
                         };
-                        let term = format!("(({} {} {} {}) ++ c_nat (Model.Driver.guard_id (Model.Driver.{} {} {} {})))",
+                        let term = format!("(({} {} {} {}) ++ c_nat (Model.Driver.guard_id (@Model.Driver.{} PrimFloat.float PrimFloat.float {} {} {})))",
                             runner, coq_nat(w), xs_coq, ys_coq, chk, coq_nat(w), xs_coq, ys_coq);
                         for be2 in ["vec", "deque", "nd"] {
                             let rel2 = if len2 == 0 && len > 0 { "empty" } else if len2 < len { "shorter" }
